@@ -5,7 +5,6 @@ package main
 
 import (
 	"os"
-	"runtime/pprof"
 	"slices"
 	"sort"
 	"sync"
@@ -15,11 +14,6 @@ import (
 )
 
 func main() {
-	if pf := os.Getenv("C17_PROF"); pf != "" {
-		f, _ := os.Create(pf)
-		pprof.StartCPUProfile(f)
-		defer pprof.StopCPUProfile()
-	}
 	r := mc.Start("C17")
 	r.Rule("for every mnemonic the encoder tables list: operand shapes are discovered by probing the encoder (a shape is accepted when Encode returns without error or panic); every accepted shape is enumerated over all register tuples x immediate boundary alphabet and over every immediate of the accepted range x fixed register tuples (thorough: full products); each produced encoding is decoded by golang.org/x/arch, by Wa's own decoder and (batches) by llvm-mc and compared field by field in a canonical form; two outcomes are distinct when the decoded mnemonic differs")
 	cov := map[string]any{}
@@ -128,6 +122,5 @@ func main() {
 		r.Sample(map[string]any{"arch": "x64", "asked": "add dword ptr [rbp-16], 1000", "encoding": "81 45 f0 e8 03 00 00", "xarch": "add dword ptr [rbp-0x10], 0x3e8"})
 	}
 	llvmDone()
-	pprof.StopCPUProfile()
 	r.Finish()
 }
